@@ -162,6 +162,8 @@ func (r *R) runCarry(ctx sdk.Context, mod string) [][2]string {
 	switch mod {
 	case "htlc":
 		b.htlcCarry()
+	case "service":
+		b.serviceCarry()
 	}
 	return b.res
 }
@@ -438,6 +440,79 @@ func (b *run) service() {
 	// past the arbitration + complaint window of the default parameters (20 days)
 	b.ctx = hx.WithBlock(b.ctx, b.ctx.BlockHeight()+1, b.ctx.BlockTime().Add(21*24*time.Hour))
 	b.msg("refund_deposit", &svctypes.MsgRefundServiceDeposit{ServiceName: "svc", Provider: a1, Owner: a1})
+}
+
+// serviceCarry: a binding and two outstanding requests are created under the default parameters; then the
+// stored set takes over (other base denom, deposit multiple, slash fraction, tax, timeouts) and the pending
+// objects are answered, expired (slash + refund), withdrawn, updated, disabled, enabled and refunded.
+func (b *run) serviceCarry() {
+	k := b.r.env.Service
+	stored := k.GetParams(b.ctx)
+	dp := svctypes.DefaultParams()
+	if err := k.SetParams(b.ctx, dp); err != nil {
+		hx.Fail("carry: default service params: %v", err)
+	}
+	a0, a1, a2 := hx.Acc(0).String(), hx.Acc(1).String(), hx.Acc(2).String()
+	base := dp.BaseDenom
+	big := hx.MustInt("100000000000000000000") // 10^20
+	for _, a := range []sdk.AccAddress{hx.Acc(1), hx.Acc(2)} {
+		b.r.env.Fund(b.ctx, a, sdk.NewCoins(sdk.NewCoin(base, big.MulRaw(10))))
+	}
+	dep := sdk.Coins{sdk.Coin{Denom: base, Amount: big}}
+	capc := sdk.Coins{sdk.Coin{Denom: base, Amount: sdkmath.NewInt(1000)}}
+	setup := func(m sdk.Msg) bool {
+		if out := b.r.env.Deliver(b.ctx, m); out.Class != hx.OK {
+			if os.Getenv("VERIF_DEBUG") != "" {
+				fmt.Fprintf(os.Stderr, "debug: service carry setup -> %s %s\n", out.Class, out.Err)
+			}
+			b.r.Stats["carry.service.setup-failed"]++
+			return false
+		}
+		return true
+	}
+	if !setup(&svctypes.MsgDefineService{Name: "csvc", Description: "d", Author: a0, AuthorDescription: "a", Schemas: okSch}) ||
+		!setup(&svctypes.MsgBindService{ServiceName: "csvc", Provider: a1, Deposit: dep, Pricing: `{"price":"10` + base + `"}`, QoS: 2, Options: "{}", Owner: a1}) {
+		return
+	}
+	b.ctx = b.ctx.WithTxBytes([]byte("ctx1"))
+	if !setup(&svctypes.MsgCallService{ServiceName: "csvc", Providers: []string{a1}, Consumer: a2, Input: okInput, ServiceFeeCap: capc, Timeout: 3}) {
+		return
+	}
+	b.ctx = b.ctx.WithTxBytes([]byte("ctx2"))
+	if !setup(&svctypes.MsgCallService{ServiceName: "csvc", Providers: []string{a1}, Consumer: a2, Input: okInput, ServiceFeeCap: capc, Timeout: 3}) {
+		return
+	}
+	if p, _ := hx.NoPanic(func() { svcmod.EndBlocker(b.ctx, k) }); p {
+		b.r.Stats["carry.service.setup-failed"]++
+		return
+	}
+	var reqs []string
+	k.IterateRequests(b.ctx, func(id tmbytes.HexBytes, r svctypes.CompactRequest) bool { reqs = append(reqs, id.String()); return false })
+	if len(reqs) != 2 {
+		b.r.Stats["carry.service.setup-failed"]++
+		return
+	}
+	// the stored set takes over
+	if err := k.SetParams(b.ctx, stored); err != nil {
+		hx.Fail("carry: stored set refused: %v", err)
+	}
+	b.r.Stats["carry.service.run"]++
+	b.next()
+	b.hook("carry_begin_block", func() { svcmod.BeginBlocker(b.ctx, k) })
+	b.msg("carry_respond", &svctypes.MsgRespondService{RequestId: reqs[0], Provider: a1, Result: `{"code":200,"message":""}`, Output: okOut})
+	b.hook("carry_end_block", func() { svcmod.EndBlocker(b.ctx, k) })
+	for i := 0; i < 3; i++ { // the second request expires unanswered under the stored set: slash + refund
+		b.next()
+		b.hook("carry_begin_block", func() { svcmod.BeginBlocker(b.ctx, k) })
+		b.hook("carry_expire", func() { svcmod.EndBlocker(b.ctx, k) })
+	}
+	b.msg("carry_withdraw", &svctypes.MsgWithdrawEarnedFees{Owner: a1, Provider: a1})
+	b.msg("carry_update_binding", &svctypes.MsgUpdateServiceBinding{ServiceName: "csvc", Provider: a1, Deposit: sdk.Coins{sdk.Coin{Denom: base, Amount: sdkmath.NewInt(5)}}, Pricing: "", QoS: 2, Options: "", Owner: a1})
+	b.msg("carry_disable", &svctypes.MsgDisableServiceBinding{ServiceName: "csvc", Provider: a1, Owner: a1})
+	b.msg("carry_enable", &svctypes.MsgEnableServiceBinding{ServiceName: "csvc", Provider: a1, Deposit: nil, Owner: a1})
+	b.msg("carry_disable2", &svctypes.MsgDisableServiceBinding{ServiceName: "csvc", Provider: a1, Owner: a1})
+	b.ctx = hx.WithBlock(b.ctx, b.ctx.BlockHeight()+1, b.ctx.BlockTime().Add(400*24*time.Hour))
+	b.msg("carry_refund_deposit", &svctypes.MsgRefundServiceDeposit{ServiceName: "csvc", Provider: a1, Owner: a1})
 }
 
 // ---------------------------------------------------------------- token
